@@ -120,6 +120,15 @@ def run_case(case, ctx):
         args, kwds = (a,), {}
     else:
         args, kwds = (a,), dict(b=b)
+        kwname = ['b', 'b', 'step', 'method', 'order', 'n', 'full_output', 'richardson_terms'][(case['seed'] // 3) % 8]
+        if kwname != 'b' and case['fun'] != 'sqrt':
+            # the keyword of f carries a name that is also an option of Derivative itself: a keyword of the call belongs to f
+            ctx.count('keyword_of_f_named_like_an_option_of_the_class')
+            f_named = f
+
+            def f(x_, a_=1.0, **kw_):
+                return f_named(x_, a_, kw_[kwname]) if kwname in kw_ else f_named(x_, a_)
+            kwds = {kwname: b}
     # in-domain values for every element
     lo = 0.3 if case['fun'] in ('sqrt', 'recip', 'mobius') else -3.0
     x = rng.uniform(lo, 3.0, size=size)
